@@ -254,3 +254,62 @@ Proof.
   assert (E : is (Some i) j = false) by (apply Nat.eqb_neq; intros E; apply Hne; symmetry; exact E).
   rewrite E. apply IH; assumption.
 Qed.
+
+(* ---------- the sender-side registries for ANY number of incarnations and ANY interleaving ---------- *)
+(* the ownership entry and the delivery-channel entry are each a conditional registry in the sense above *)
+Definition proj_send (o : op) : list cop := match o with SetSend i => [CSet i] | RemSend i => [CDel i] | _ => [] end.
+Definition proj_shard (o : op) : list cop := match o with RegShard i => [CSet i] | UnregShard i => [CDel i] | _ => [] end.
+
+Lemma cexec_fst st st' o : fst st = fst st' -> fst (cexec st o) = fst (cexec st' o).
+Proof. intros H. destruct o as [i|i]; cbn [cexec]; [reflexivity|]. rewrite H. destruct (is (fst st') i); [reflexivity|exact H]. Qed.
+
+Lemma fold_cexec_fst l : forall st st', fst st = fst st' -> fst (fold_left cexec l st) = fst (fold_left cexec l st').
+Proof. induction l as [|o l IH]; intros st st' H; cbn [fold_left]; [exact H|]. apply IH. apply cexec_fst. exact H. Qed.
+
+Lemma run_send_proj l : forall r n, r_send (run l r) = fst (fold_left cexec (flat_map proj_send l) (r_send r, n)).
+Proof.
+  induction l as [|o l IH]; intros r n; [reflexivity|]. cbn [run fold_left flat_map]. fold (run l (exec r o)). rewrite fold_left_app.
+  rewrite (IH (exec r o) n). apply fold_cexec_fst.
+  destruct o; cbn [proj_send fold_left exec cexec fst]; try reflexivity;
+    try (destruct r; cbn; repeat match goal with |- context [if ?c then _ else _] => destruct c | |- context [match ?c with Some _ => _ | None => _ end] => destruct c end; reflexivity).
+Qed.
+
+Lemma run_shard_proj l : forall r n, r_shard (run l r) = fst (fold_left cexec (flat_map proj_shard l) (r_shard r, n)).
+Proof.
+  induction l as [|o l IH]; intros r n; [reflexivity|]. cbn [run fold_left flat_map]. fold (run l (exec r o)). rewrite fold_left_app.
+  rewrite (IH (exec r o) n). apply fold_cexec_fst.
+  destruct o; cbn [proj_shard fold_left exec cexec fst]; try reflexivity;
+    try (destruct r; cbn; repeat match goal with |- context [if ?c then _ else _] => destruct c | |- context [match ?c with Some _ => _ | None => _ end] => destruct c end; reflexivity).
+Qed.
+
+(* any operation sequence whatsoever (any number of sender and receiver incarnations, replays, any interleaving): if the
+   last registration of a delivery channel is incarnation i's and i's own cleanup does not follow it, the channel
+   registered at the end is i's; the same for the ownership entry.  No cleanup of another incarnation can remove it. *)
+Theorem sender_newest_survives_unbounded pre i post r :
+  no_set (flat_map proj_send post) -> no_del i (flat_map proj_send post) ->
+  r_send (run (pre ++ SetSend i :: post) r) = Some i.
+Proof.
+  intros Hs Hd. rewrite (run_send_proj _ r 0). rewrite flat_map_app. cbn [flat_map proj_send app].
+  apply cond_registry_last_set_survives; assumption.
+Qed.
+
+Theorem shard_newest_survives_unbounded pre i post r :
+  no_set (flat_map proj_shard post) -> no_del i (flat_map proj_shard post) ->
+  r_shard (run (pre ++ RegShard i :: post) r) = Some i.
+Proof.
+  intros Hs Hd. rewrite (run_shard_proj _ r 0). rewrite flat_map_app. cbn [flat_map proj_shard app].
+  apply cond_registry_last_set_survives; assumption.
+Qed.
+
+(* with the recover guard in place no sequence of operations crashes *)
+Fixpoint all_guarded (l : list op) : Prop :=
+  match l with [] => True | ReplaySend _ g :: rest => g = true /\ all_guarded rest | _ :: rest => all_guarded rest end.
+Theorem guarded_never_crashes l : forall r, all_guarded l -> crashed r = false -> crashed (run l r) = false.
+Proof.
+  induction l as [|o l IH]; intros r Hg Hc; [exact Hc|]. cbn [run fold_left]. fold (run l (exec r o)).
+  apply IH; [destruct o; cbn [all_guarded] in Hg; try exact Hg; destruct Hg as [_ Hg]; exact Hg|].
+  destruct o; cbn [exec]; try exact Hc;
+    try (repeat match goal with |- context [if ?c then _ else _] => destruct c | |- context [match ?c with Some _ => _ | None => _ end] => destruct c end; cbn; exact Hc).
+  cbn [all_guarded] in Hg. destruct Hg as [-> _].
+  repeat match goal with |- context [if ?c then _ else _] => destruct c | |- context [match ?c with Some _ => _ | None => _ end] => destruct c end; cbn; exact Hc.
+Qed.
